@@ -1,28 +1,35 @@
-"""C38 -- material-property call contracts (status, bounds, errno): generic interface and C interface _checkBounds.
+"""C38 -- material-property call contracts (status, bounds, errno): generic interface, C interface (_checkBounds and, as an
+observation, its main function) and c++ interface (static checkBounds and operator()).
 Engine H + G: Gallina contract model (coq/C38Model.v) with theorems over the (extended) reals; tie = random material
-properties printed to .mfront, compiled through the `generic` and `c` interfaces of the mfront built from the working
-tree, called on argument vectors on and around every bound, all policies, caller errno in {0, EDOM, ERANGE, 42}, injected
-law outcomes (value, errno left, exception), wrong argument counts; compared with the extracted model and with an
-independent Python statement of the documented contract (docs/web/generic-material-property-interface.md)."""
+properties printed to .mfront, compiled through the `generic`, `c` and `c++` interfaces of the mfront built from the working
+tree, called on argument vectors on and around every bound (NaN included), all policies, caller errno in {0, EDOM, ERANGE, 42},
+injected law outcomes (value, errno left, exception), wrong argument counts, DSL options (parameters with a parameters file
+-> status -6, static parameters, initialisation from file disabled, disabled runtime checks, default policy / runtime
+modification of the policy for the c++ interface); compared with the extracted model and with an independent Python statement
+of the documented contract (docs/web/generic-material-property-interface.md, OutputStatus.h, docs/web/material-properties.md)."""
 import math, os, sys
 from concurrent.futures import ThreadPoolExecutor
 from vlib import guarded_main, REPO_BUILD
 sys.path.insert(0, os.path.dirname(os.path.abspath(__file__)))
-from mplib import MFrontSemaphore, mfront_exe, key, fmt, mfront_bounds, outside, grid
+from mplib import mfront_exe, key, fmt, mfront_bounds, outside, grid
 
 MODEL = ["C38Model.v"]
 EXTRACT = """From C38 Require Import C38Model.
 Require Import ExtrOcamlBasic.
 From Coq Require Import ZArith.
-Extraction "c38_model.ml" generic c_checkBounds Z.ltb.
+Extraction "c38_model.ml" generic_opt c_checkBounds_opt c_main cxx_checkBounds cxx_call cxx_policy Z.ltb.
 """
 EDOM, ERANGE = 33, 34
 ERRNOS = [0, EDOM, ERANGE, 42]
 BV = ["-273.15", "-0.5", "0", "0.000123456789", "0.25", "1", "1.23456789", "1.5", "2.5", "100", "293.15", "1234567.5"]
 QT_TYPES = ["temperature", "stress", "real", "strain", "length"]
+POLS = ["None", "Warning", "Strict"]
 K_F11 = "generic:errno-not-restored:strict-branch-of-upper-bound-only-variable"
 K_PREC_G = "generic:bounds-emitted-with-6-significant-digits"
 K_PREC_C = "c:bounds-emitted-with-6-significant-digits"
+K_PREC_X = "cxx:bounds-emitted-with-6-significant-digits"
+K_RET = "generic:status-3-and-4-return-the-computed-value-documented-nan"
+NOOPT = dict(nparams=0, static=False, from_file=None, nochecks=False, dflt=None, rtmod=None)
 
 
 # ----------------------------------------------------------------------------- programs
@@ -49,6 +56,24 @@ def rand_var(rng):
     return dict(bounds=b, phys=ph)
 
 
+GOOD_LINES = [("# a comment", "H"), ("", "B"), ("p0 2.5", "A11"), ("   ", "B"), ("#p0 x y z", "H"), ("p0 1e-3", "A11")]
+GOOD_LINES2 = [("SecondParameter 0.125", "A11"), ("p1 3", "A11")]
+BAD_LINES = {"name": ("q0 1.5", "A01"), "value": ("p0 1.5x", "A10"), "tokens": ("p0 1.5 extra", "T"), "one": ("p0", "T"),
+             "both": ("q0 abc", "A00")}
+
+
+def make_pfile(rng, kind, nparams):
+    """lines of <law>-parameters.txt with the class the generated handler gives each of them (independent reading of
+    mfront/src/MaterialPropertyParametersHandler.cxx: tokens split on blanks; no token -> skipped; first token beginning
+    with '#' -> skipped; other than 2 tokens -> error; second token not entirely a number -> error; first token not a
+    parameter name or external name -> error)"""
+    pool = GOOD_LINES + (GOOD_LINES2 if nparams > 1 else [])
+    lines = [rng.choice(pool) for _ in range(rng.choice([1, 2, 4]))]
+    if kind != "valid":
+        lines.insert(rng.randrange(len(lines) + 1), BAD_LINES[kind])
+    return lines
+
+
 ARCHETYPES = [
     # upper-bound-only input (F11 witness), lower-bound-only input, two-sided; output without bounds
     dict(inputs=[dict(bounds=("U", "0", "1.5"), phys=None)], output=dict(bounds=None, phys=None)),
@@ -59,7 +84,45 @@ ARCHETYPES = [
                  dict(bounds=None, phys=("U", "0", "293.15"))],
          output=dict(bounds=("B", "0.000123456789", "1.23456789"), phys=None)),
     dict(inputs=[], output=dict(bounds=("B", "0", "100"), phys=("L", "-273.15", "0"))),
+    # inputs WITHOUT @Bounds before inputs WITH @Bounds: the rank reported is the argument position
+    dict(inputs=[dict(bounds=None, phys=("U", "0", "293.15")), dict(bounds=None, phys=None), dict(bounds=("B", "0.25", "2.5"), phys=None),
+                 dict(bounds=("U", "0", "100"), phys=None)], output=dict(bounds=("L", "-0.5", "0"), phys=None)),
+    # parameters and a parameters file with an invalid line: status -6
+    dict(inputs=[dict(bounds=("B", "0", "1.5"), phys=("L", "-0.5", "0"))], output=dict(bounds=("U", "0", "100"), phys=None),
+         opts=dict(NOOPT, nparams=2), pfile="bad", light=True),
+    # parameters and a well-formed parameters file (comments, blank lines, external name)
+    dict(inputs=[dict(bounds=("B", "0", "1.5"), phys=("L", "-0.5", "0")), dict(bounds=("L", "1", "0"), phys=None)],
+         output=dict(bounds=("U", "0", "100"), phys=None), opts=dict(NOOPT, nparams=2), pfile="valid"),
+    # static parameters: the (invalid) file is not read; c++: default policy Strict that the environment cannot change
+    dict(inputs=[dict(bounds=("B", "0", "1.5"), phys=("L", "-0.5", "0"))], output=dict(bounds=("U", "0", "100"), phys=None),
+         opts=dict(NOOPT, nparams=1, static=True, dflt="Strict", rtmod=False), pfile="bad", light=True),
+    # runtime checks disabled
+    dict(inputs=[dict(bounds=("B", "0", "1.5"), phys=("L", "-0.5", "0")), dict(bounds=("U", "0", "2.5"), phys=None)],
+         output=dict(bounds=("B", "0", "100"), phys=("L", "0", "0")), opts=dict(NOOPT, nochecks=True), light=True),
+    # initialisation from file disabled: the (invalid) file is not read; c++: default policy Warning
+    dict(inputs=[dict(bounds=("L", "0.25", "0"), phys=None)], output=dict(bounds=None, phys=("B", "-273.15", "293.15")),
+         opts=dict(NOOPT, nparams=1, from_file=False, dflt="Warning"), pfile="bad", light=True),
 ]
+
+
+def rand_opts(rng):
+    o = dict(NOOPT)
+    pf = None
+    if rng.random() < 0.35:
+        o["nparams"] = rng.choice([1, 2])
+        r = rng.random()
+        if r < 0.2:
+            o["static"] = True
+        elif r < 0.35:
+            o["from_file"] = rng.choice([False, True])
+        pf = rng.choice([None, "valid", "valid", "bad", "bad"])
+    if rng.random() < 0.08:
+        o["nochecks"] = True
+    if rng.random() < 0.3:
+        o["dflt"] = rng.choice(POLS)
+    if rng.random() < 0.2:
+        o["rtmod"] = rng.choice([False, True])
+    return o, pf
 
 
 def gen_program(rng, idx):
@@ -67,29 +130,53 @@ def gen_program(rng, idx):
         p = dict(ARCHETYPES[idx])
     else:
         n = rng.choice([1, 1, 2, 2, 3, 4])
-        p = dict(inputs=[rand_var(rng) for _ in range(n)], output=rand_var(rng))
+        o, pf = rand_opts(rng)
+        p = dict(inputs=[rand_var(rng) for _ in range(n)], output=rand_var(rng), opts=o, pfile=pf)
     p = dict(p, name="C38P%d" % idx, useqt=(idx % 3 == 2))
+    p.setdefault("opts", dict(NOOPT))
+    p.setdefault("light", False)
+    pf = p.get("pfile")
+    if pf == "bad":
+        pf = rng.choice(sorted(BAD_LINES))
+    p["pfile"] = make_pfile(rng, pf, p["opts"]["nparams"]) if pf else None
     p["inputs"] = [dict(v, name="x%d" % j, ty=(QT_TYPES[(idx + j) % len(QT_TYPES)] if p["useqt"] else "real")) for j, v in enumerate(p["inputs"])]
     p["output"] = dict(p["output"], name="y", ty=("stress" if p["useqt"] else "real"))
     return p
 
 
 def mfront_text(p, suffix=""):
-    """the same declaration is printed twice: law <name> for the generic interface, <name>c for the C interface (both
-    interfaces export the same symbol names, so they cannot be linked into one driver under one name)"""
-    t = "@DSL MaterialProperty;\n@Law %s;\n" % (p["name"] + suffix)
+    """the same declaration is printed three times: law <name> for the generic interface, <name>c for the C interface,
+    <name>x for the c++ interface (the interfaces export the same symbol names, so they cannot be linked into one driver
+    under one name)"""
+    o = p["opts"]
+    ds = []
+    if o["static"]:
+        ds.append("parameters_as_static_variables: true")
+    if o["from_file"] is not None:
+        ds.append("parameters_initialization_from_file: %s" % ("true" if o["from_file"] else "false"))
+    if o["nochecks"]:
+        ds.append("disable_runtime_checks: true")
+    if o["dflt"]:
+        ds.append('default_out_of_bounds_policy: "%s"' % o["dflt"])
+    if o["rtmod"] is not None:
+        ds.append("out_of_bounds_policy_runtime_modification: %s" % ("true" if o["rtmod"] else "false"))
+    t = "@DSL MaterialProperty%s;\n@Law %s;\n" % (("{" + ", ".join(ds) + "}") if ds else "", p["name"] + suffix)
     if p["useqt"]:
         t += "@UseQt true;\n"
     t += "@Includes{\n#include <stdexcept>\nextern \"C\" { extern double c38_value; extern int c38_errno; extern int c38_throw; }\n}\n"
     t += "@Output %s y;\n" % p["output"]["ty"]
     for v in p["inputs"]:
         t += "@Input %s %s;\n" % (v["ty"], v["name"])
+    for j in range(o["nparams"]):
+        t += "@Parameter real p%d = %s;\n" % (j, ["1.5", "0.25"][j])
+    if o["nparams"] > 1:
+        t += "p1.setEntryName(\"SecondParameter\");\n"
     for v in p["inputs"] + [p["output"]]:
         if v["phys"]:
             t += "@PhysicalBounds %s in %s;\n" % (v["name"], mfront_bounds(v["phys"]))
         if v["bounds"]:
             t += "@Bounds %s in %s;\n" % (v["name"], mfront_bounds(v["bounds"]))
-    use = "".join("  static_cast<void>(%s);\n" % v["name"] for v in p["inputs"])
+    use = "".join("  static_cast<void>(%s);\n" % n for n in [v["name"] for v in p["inputs"]] + ["p%d" % j for j in range(o["nparams"])])
     t += ("@Function{\n%s  y = decltype(y)(c38_value);\n  if(c38_errno != 0){ errno = c38_errno; }\n"
           "  if(c38_throw == 1){ throw std::runtime_error(\"boom\"); }\n  if(c38_throw == 2){ throw 3; }\n}\n" % use)
     return t
@@ -103,12 +190,17 @@ def driver_text(dirname, progs):
     tpl = open(os.path.join(dirname, "driver_template.cxx")).read()
     inc, reg = [], []
     for i, p in enumerate(progs):
-        inc.append('#include "%s-generic.hxx"\n#include "%sc.hxx"' % (p["name"], p["name"]))
+        n = len(p["inputs"])
+        al = ",".join("a[%d]" % j for j in range(n))
+        inc.append('#include "%s-generic.hxx"\n#include "%sc.hxx"\n#include "%sx-cxx.hxx"' % (p["name"], p["name"], p["name"]))
         if has_cb(p):
-            n = len(p["inputs"])
-            reg.append("static int cb_%d(const double* a){ return %sc_checkBounds(%s); }" % (i, p["name"], ",".join("a[%d]" % j for j in range(n))))
+            reg.append("static int cb_%d(const double* a){ return %sc_checkBounds(%s); }" % (i, p["name"], al))
+            reg.append("static void xk_%d(const double* a){ mfront::%sx::checkBounds(%s); }" % (i, p["name"], al))
+        reg.append("static double cm_%d(const double* a){ static_cast<void>(a); return %sc(%s); }" % (i, p["name"], al))
+        reg.append("static double xf_%d(const double* a){ static_cast<void>(a); const mfront::%sx f; return f(%s); }" % (i, p["name"], al))
     reg.append("static const Entry registry[] = {%s};" % ", ".join(
-        "{%s, %s, %d}" % (p["name"], "cb_%d" % i if has_cb(p) else "nullptr", len(p["inputs"])) for i, p in enumerate(progs)))
+        "{%s, %s, cm_%d, xf_%d, %s, %d}" % (p["name"], "cb_%d" % i if has_cb(p) else "nullptr", i, i, "xk_%d" % i if has_cb(p) else "nullptr",
+                                             len(p["inputs"])) for i, p in enumerate(progs)))
     return tpl.replace("//@INCLUDES@", "\n".join(inc)).replace("//@REGISTRY@", "\n".join(reg))
 
 
@@ -123,6 +215,8 @@ def inside_value(v, rng=None):
 def program_cases(c, pi, p):
     rng = c.rng
     n = len(p["inputs"])
+    light = p["light"]
+    polopts = p["opts"]["dflt"] is not None or p["opts"]["rtmod"] is not None
     base = [inside_value(v) for v in p["inputs"]]
     yin = inside_value(p["output"])
     vecs = [list(base)]
@@ -130,13 +224,14 @@ def program_cases(c, pi, p):
         pts = set()
         for b in (v["bounds"], v["phys"]):
             if b:
-                pts |= set(grid(b))
+                g = grid(b)
+                pts |= set(g[::3] if light else g)
         pts |= {math.inf, -math.inf, math.nan}
         for x in sorted(pts, key=lambda z: (math.isnan(z), z)):
             w = list(base)
             w[j] = x
             vecs.append(w)
-    for _ in range(c.pick(10, 60) if n > 1 else 0):
+    for _ in range((c.pick(10, 60) if n > 1 else 0) if not light else (3 if n > 1 else 0)):
         w = list(base)
         for j in rng.sample(range(n), rng.choice([2, min(n, 3)])):
             bs = [b for b in (p["inputs"][j]["bounds"], p["inputs"][j]["phys"]) if b]
@@ -154,26 +249,35 @@ def program_cases(c, pi, p):
         outs_full += [("R", max(ypts), EDOM), ("R", min(ypts), ERANGE)]
     cases = []
     k = 0
+
+    def envpol(pol):
+        # c++ interface: same policy as the generic call (NONE <-> unset alternately), except when the declaration sets a
+        # default policy or forbids its modification: then the variable cycles independently
+        if polopts:
+            return [-1, 0, 1, 2][k % 4]
+        return pol if pol else (-1 if k % 2 == 0 else 0)
     for vi, w in enumerate(vecs):
-        full = vi == 0 or vi % 7 == 3
+        full = vi == 0 or (vi % 7 == 3 and not light)
         for pol in (0, 1, 2):
             for oc in (outcomes + outs_full) if full else outcomes + [outs_full[(vi + pol) % len(outs_full)]]:
                 for e0 in (ERRNOS if (full and oc in outcomes) or (vi + pol) % 5 == 0 else [ERRNOS[(vi + pol + k) % 4]]):
-                    cases.append(dict(id="%d_%d" % (pi, k), prog=pi, pol=pol, nargs=n, e0=e0, oc=oc, args=w))
+                    cases.append(dict(id="%d_%d" % (pi, k), prog=pi, pol=pol, nargs=n, e0=e0, oc=oc, args=w, envpol=envpol(pol)))
                     k += 1
     for d in (-1, 1, 3):
         if n + d >= 0:
             for pol in (0, 1, 2):
                 for e0 in ERRNOS:
-                    cases.append(dict(id="%d_%d" % (pi, k), prog=pi, pol=pol, nargs=n + d, e0=e0, oc=outcomes[0], args=list(base) + [0.5] * max(0, d)))
+                    cases.append(dict(id="%d_%d" % (pi, k), prog=pi, pol=pol, nargs=n + d, e0=e0, oc=outcomes[0], args=list(base) + [0.5] * max(0, d),
+                                      envpol=envpol(pol)))
                     k += 1
     return cases
 
 
 def case_line(cs):
     kind, val, es = cs["oc"]
-    return "%s %d %d %d %d %s %d %d %d %s" % (cs["id"], cs["prog"], cs["pol"], cs["nargs"], cs["e0"], fmt(val) if kind == "R" else "0",
-                                             es if kind == "R" else 0, val if kind == "T" else 0, len(cs["args"]), " ".join(fmt(a) for a in cs["args"]))
+    return "%s %d %d %d %d %s %d %d %d %d %s" % (cs["id"], cs["prog"], cs["pol"], cs["nargs"], cs["e0"], fmt(val) if kind == "R" else "0",
+                                                es if kind == "R" else 0, val if kind == "T" else 0, cs["envpol"], len(cs["args"]),
+                                                " ".join(fmt(a) for a in cs["args"]))
 
 
 # ----------------------------------------------------------------------------- model protocol
@@ -184,62 +288,159 @@ def tok_bounds(b, rnd):
     return {"L": "L %s" % key(f(b[1])), "U": "U %s" % key(f(b[2])), "B": "B %s %s" % (key(f(b[1])), key(f(b[2])))}[b[0]]
 
 
-def decl_line(p, rnd):
+def decl_lines(p, rnd, rnd_x):
     vs = p["inputs"] + [p["output"]]
-    return "D %d %s" % (len(p["inputs"]), " ".join("%s %s" % (tok_bounds(v["bounds"], rnd), tok_bounds(v["phys"], rnd)) for v in vs))
+    o = p["opts"]
+    body = lambda r: "%d %s" % (len(p["inputs"]), " ".join("%s %s" % (tok_bounds(v["bounds"], r), tok_bounds(v["phys"], r)) for v in vs))
+    return ["D " + body(rnd), "E " + body(rnd_x),
+            "O %d %d %d %d" % (o["nparams"] > 0, o["static"], o["from_file"] is not False, o["nochecks"]),
+            "F -" if p["pfile"] is None else "F %d %s" % (len(p["pfile"]), " ".join(cl for _, cl in p["pfile"]))]
 
 
-def model_lines(cs, variant):
+def dflt_pol(p):
+    return POLS.index(p["opts"]["dflt"] or "None")
+
+
+def model_lines(p, cs, variant):
     kind, val, es = cs["oc"]
     oc = "R %s %d" % (key(val), es) if kind == "R" else "T"
-    g = "G %s %d %d %d %s %d %s" % (variant, cs["pol"], cs["nargs"], cs["e0"], oc, len(cs["args"]), " ".join(key(a) for a in cs["args"]))
-    return [g, "C %d %s" % (len(cs["args"]), " ".join(key(a) for a in cs["args"]))]
+    n = len(p["inputs"])
+    av = "%d %s" % (len(cs["args"]), " ".join(key(a) for a in cs["args"]))
+    xa = cs["args"][:n]
+    xv = "%d %s" % (len(xa), " ".join(key(a) for a in xa))
+    px = "%d %d %s" % (dflt_pol(p), p["opts"]["rtmod"] is not False, "-" if cs["envpol"] < 0 else "%d" % cs["envpol"])
+    return ["G %s %d %d %d %s %s" % (variant, cs["pol"], cs["nargs"], cs["e0"], oc, av), "C " + av, "M " + oc, "K %s %s" % (px, xv),
+            "X %s %s %s" % (px, oc, xv)]
 
 
 # ----------------------------------------------------------------------------- independent statement of the contract
+def handler_ok_spec(p):
+    """-6: "the parameters' file is invalid": the file is read only if the property has parameters which are not static
+    variables and initialisation from file is allowed; every line must be blank, a comment or `<parameter> <number>`"""
+    o = p["opts"]
+    reads = o["nparams"] > 0 and not o["static"] and o["from_file"] is not False
+    return (not reads) or p["pfile"] is None or all(cl in ("B", "H", "A11") for _, cl in p["pfile"])
+
+
+def rbf(rnd):
+    return lambda b: (b[0], float("%.6g" % float(b[1])), float("%.6g" % float(b[2]))) if (b and rnd) else b
+
+
 def spec(p, cs, rnd=False):
-    """documented contract -> dict(status, bs_allowed (set), ret ('nan' | 'value' | None = unconstrained), cen)"""
-    def rb(b):
-        return (b[0], float("%.6g" % float(b[1])), float("%.6g" % float(b[2]))) if (b and rnd) else b
+    """documented contract -> dict(status, bs (allowed set | None), ret ('nan' | 'value' | None = unconstrained), cen,
+    errno (expected errno after the call | None = unconstrained))"""
+    rb = rbf(rnd)
     n = len(p["inputs"])
+    kind, val, es = cs["oc"]
+    e0 = cs["e0"]
+    if p["opts"]["nochecks"]:
+        # "interfaces may disable as many runtime checks as possible": no bounds, no argument count, no errno bookkeeping
+        if kind == "T":
+            return dict(status=-2, bs={0}, ret="nan", cen=0, errno=None)
+        return dict(status=0, bs={0}, ret="value", cen=0, errno=(e0 if es == 0 else None))
     if cs["nargs"] != n:
-        return dict(status=-5, bs={0}, ret="nan", cen=0)
+        return dict(status=-5, bs={0}, ret="nan", cen=0, errno=e0)
+    if not handler_ok_spec(p):
+        return dict(status=-6, bs={0}, ret="nan", cen=0, errno=e0)
     a = cs["args"]
     pv = [j + 1 for j, v in enumerate(p["inputs"]) if outside(rb(v["phys"]), a[j])]
     if pv:
-        return dict(status=-1, bs={-pv[0]}, ret="nan", cen=0)       # physical bounds first, whatever the policy
+        return dict(status=-1, bs={-pv[0]}, ret="nan", cen=0, errno=e0)       # physical bounds first, whatever the policy
     bv = [j + 1 for j, v in enumerate(p["inputs"]) if outside(rb(v["bounds"]), a[j])]
     if cs["pol"] == 2 and bv:
-        return dict(status=-1, bs={-bv[0]}, ret="nan", cen=0)
+        return dict(status=-1, bs={-bv[0]}, ret="nan", cen=0, errno=e0)
     warn = set(bv) if cs["pol"] == 1 else set()
-    kind, val, es = cs["oc"]
     if kind == "T":
-        return dict(status=-2, bs=None, ret="nan", cen=0)
+        return dict(status=-2, bs=None, ret="nan", cen=0, errno=e0)
     if outside(rb(p["output"]["phys"]), val):
-        return dict(status=-1, bs={-(n + 1)}, ret="nan", cen=0)
+        return dict(status=-1, bs={-(n + 1)}, ret="nan", cen=0, errno=e0)
     if outside(rb(p["output"]["bounds"]), val):
         if cs["pol"] == 2:
-            return dict(status=-1, bs={-(n + 1)}, ret="nan", cen=0)
+            return dict(status=-1, bs={-(n + 1)}, ret="nan", cen=0, errno=e0)
         if cs["pol"] == 1:
             warn = {n + 1}
+    # "All negative values indicates that the result is not usable. For a material property, the returned is `nan`."
     if not math.isfinite(val):
-        return dict(status=-4, bs=None, ret=None, cen=es)
+        return dict(status=-4, bs=None, ret="nan", cen=es, errno=e0)
     if es != 0:
-        return dict(status=-3, bs=None, ret=None, cen=es)
+        return dict(status=-3, bs=None, ret="nan", cen=es, errno=e0)
     if warn:
-        return dict(status=1, bs=({max(warn)} if (n + 1) in warn else warn), ret="value", cen=0)
-    return dict(status=0, bs={0}, ret="value", cen=0)
+        return dict(status=1, bs=({max(warn)} if (n + 1) in warn else warn), ret="value", cen=0, errno=e0)
+    return dict(status=0, bs={0}, ret="value", cen=0, errno=e0)
 
 
 def spec_cb(p, cs, rnd=False):
-    def rb(b):
-        return (b[0], float("%.6g" % float(b[1])), float("%.6g" % float(b[2]))) if (b and rnd) else b
+    rb = rbf(rnd)
+    if p["opts"]["nochecks"]:
+        return 0
     a = cs["args"]
     pv = [j + 1 for j, v in enumerate(p["inputs"]) if outside(rb(v["phys"]), a[j])]
     if pv:
         return -pv[0]
     bv = [j + 1 for j, v in enumerate(p["inputs"]) if outside(rb(v["bounds"]), a[j])]
     return bv[0] if bv else 0
+
+
+def cxx_policy(p, cs):
+    """docs/web/material-properties.md: the policy is the default one (None unless default_out_of_bounds_policy says otherwise);
+    it can be changed at run time through the environment unless out_of_bounds_policy_runtime_modification is false"""
+    if p["opts"]["rtmod"] is False or cs["envpol"] < 0:
+        return dflt_pol(p)
+    return cs["envpol"]
+
+
+def spec_cxx(p, cs, call, rnd=False):
+    """c++ interface, docs/web/material-properties.md: a violation of the physical bounds is always an error; None: nothing
+    is done; Warning: the user is informed, the computation is performed; Strict: the computation is stopped, an error is
+    reported (for this interface: std::range_error / message on std::cerr).  -> (kind, rank, physical, value, warned)"""
+    rb = rbf(rnd)
+    n = len(p["inputs"])
+    a = cs["args"][:n]
+    pol = cxx_policy(p, cs)
+    kind, val, es = cs["oc"]
+    if p["opts"]["nochecks"]:
+        if call and kind == "T":
+            return ("L", 0, 0, None, [])
+        return ("V", 0, 0, val if call else None, [])
+    pv = [j + 1 for j, v in enumerate(p["inputs"]) if outside(rb(v["phys"]), a[j])]
+    if pv:
+        return ("G", pv[0], 1, None, [])
+    bv = [j + 1 for j, v in enumerate(p["inputs"]) if outside(rb(v["bounds"]), a[j])]
+    if bv and pol == 2:
+        return ("G", bv[0], 0, None, [])
+    w = list(bv) if pol == 1 else []
+    if not call:
+        return ("V", 0, 0, None, w)
+    if kind == "T":
+        return ("L", 0, 0, None, w)
+    if n > 0 and (es != 0 or not math.isfinite(val)):       # errno is only looked at when the property has inputs
+        return ("R", 0, 0, None, w)
+    if outside(rb(p["output"]["phys"]), val):
+        return ("G", n + 1, 1, None, w)
+    if outside(rb(p["output"]["bounds"]), val):
+        if pol == 2:
+            return ("G", n + 1, 0, None, w)
+        if pol == 1:
+            w = w + [n + 1]
+    return ("V", 0, 0, val, w)
+
+
+def same_float(a, b):
+    return (math.isnan(a) and math.isnan(b)) or a == b
+
+
+def meets_cxx(sp, o):
+    """o = (kind, rank, phys, ret|None, warned)"""
+    bad = []
+    if o[0] != sp[0]:
+        bad.append("outcome %s (documented %s)" % (o[0], sp[0]))
+    elif o[0] == "G" and (o[1], o[2]) != (sp[1], sp[2]):
+        bad.append("std::range_error names variable of rank %d, physical=%d (documented rank %d, physical=%d)" % (o[1], o[2], sp[1], sp[2]))
+    elif o[0] == "V" and sp[3] is not None and not same_float(o[3], sp[3]):
+        bad.append("returned %r (law value %r)" % (o[3], sp[3]))
+    if o[0] == sp[0] and o[0] in "VLR" and list(o[4]) != list(sp[4]):
+        bad.append("variables reported on std::cerr %s (documented %s)" % (list(o[4]), list(sp[4])))
+    return bad
 
 
 def meets(sp, obs, cs):
@@ -254,15 +455,37 @@ def meets(sp, obs, cs):
         bad.append("c_error_number %d (documented %d)" % (cen, sp["cen"]))
     if sp["ret"] == "nan" and not (isinstance(ret, float) and math.isnan(ret)):
         bad.append("returned %r (documented nan)" % ret)
-    if sp["ret"] == "value" and ret != cs["oc"][1]:
+    if sp["ret"] == "value" and not same_float(ret, cs["oc"][1]):
         bad.append("returned %r (law value %r)" % (ret, cs["oc"][1]))
-    if ea != cs["e0"]:
+    if sp["errno"] is not None and ea != sp["errno"]:
         bad.append("errno after the call %d (before %d)" % (ea, cs["e0"]))
     return bad
 
 
+def is_ret_nan(b):
+    return b.startswith("returned") and b.endswith("(documented nan)")
+
+
 def pfloat(s):
     return float.fromhex(s) if s not in ("nan", "inf", "-inf") else float(s)
+
+
+def ranks(s):
+    return [] if s == "." else [int(x) for x in s.split(",")]
+
+
+def parse_obs(t):
+    """see the header of driver_template.cxx"""
+    o = dict(g=(int(t[2]), int(t[3]), int(t[4]), pfloat(t[5]), int(t[6])), msg=int(t[7]), cb=None, cm=None, k=None, x=None)
+    if t[9] != "-":
+        o["cb"] = (int(t[9]), int(t[10]))
+    if t[12] != "-":
+        o["cm"] = (pfloat(t[12]), int(t[13]))
+    if t[15] != "-":
+        o["k"] = (t[15], int(t[16]), int(t[17]), None, ranks(t[18]))
+    if t[20] != "-":
+        o["x"] = (t[20], int(t[21]), int(t[22]), pfloat(t[23]) if t[20] == "V" else None, ranks(t[25]), int(t[24]))
+    return o
 
 
 _groups = {}
@@ -280,124 +503,181 @@ def report(c, group, key_, what, rep, limit=3):
 
 def describe(p, cs):
     kind, val, es = cs["oc"]
-    return ("material property\n%s\ngeneric interface called with args %s, nargs %d, policy %s, caller errno %d, law outcome %s" % (
-        mfront_text(p), cs["args"], cs["nargs"], ["NONE", "WARNING", "STRICT"][cs["pol"]], cs["e0"],
+    pf = "" if p["pfile"] is None else "\nfile %s-parameters.txt in the current directory:\n%s" % (p["name"], "\n".join("  |%s" % l for l, _ in p["pfile"]))
+    return ("material property\n%s%s\ncalled with args %s, nargs %d, policy %s (c++: OUT_OF_BOUNDS_POLICY %s), caller errno %d, law outcome %s" % (
+        mfront_text(p), pf, cs["args"], cs["nargs"], ["NONE", "WARNING", "STRICT"][cs["pol"]],
+        ["unset", "NONE", "WARNING", "STRICT"][cs["envpol"] + 1], cs["e0"],
         ("value %r, errno left %d" % (val, es)) if kind == "R" else ("throws " + ("std::runtime_error" if val == 1 else "int"))))
 
 
+def nan_ranks(p, cs):
+    return [j + 1 for j, a in enumerate(cs["args"][:len(p["inputs"])]) if math.isnan(a)]
+
+
 # ----------------------------------------------------------------------------- main
+def run_mfront(c, mfront, gdir, p):
+    """the three interfaces of one declaration, in a directory of its own (several declarations are treated in parallel)"""
+    d = os.path.join(gdir, p["name"])
+    os.makedirs(d, exist_ok=True)
+    for suffix, itf in (("", "generic"), ("c", "c"), ("x", "c++")):
+        f = p["name"] + suffix + ".mfront"
+        open(os.path.join(d, f), "w").write(mfront_text(p, suffix))
+        rc, out, err = c.run([mfront, "--interface=" + itf, f], cwd=d, timeout=120)
+        if rc != 0:
+            return (itf, out + err)
+    return None
+
+
 def main(c):
     c.repo_build(["mfront"])
     mfront = mfront_exe(c, REPO_BUILD)
-    nprog = c.pick(10, 40)
+    nprog = c.pick(14, 40)
     progs = [gen_program(c.rng, i) for i in range(nprog)]
     gdir = os.path.join(c.work, "gen")
+    rdir = os.path.join(c.work, "run")
     os.makedirs(gdir, exist_ok=True)
-    with MFrontSemaphore() as sem:
-        for p in progs:
-            open(os.path.join(gdir, p["name"] + ".mfront"), "w").write(mfront_text(p))
-            open(os.path.join(gdir, p["name"] + "c.mfront"), "w").write(mfront_text(p, "c"))
-            rc, out, err = c.run([mfront, "--interface=generic", p["name"] + ".mfront"], cwd=gdir, timeout=120)
-            sem.runs += 1
-            if rc == 0:
-                rc, out, err = c.run([mfront, "--interface=c", p["name"] + "c.mfront"], cwd=gdir, timeout=120)
-                sem.runs += 1
-            if rc != 0:
-                c.report("mfront:" + p["name"], "mfront rejects a generated material property: " + (out + err)[-500:],
-                         {"mfront": mfront_text(p), "output": (out + err)[-2000:]}, True)
-                p["failed"] = True
+    os.makedirs(rdir, exist_ok=True)
+    with ThreadPoolExecutor(max_workers=4) as ex:
+        fails = list(ex.map(lambda p: run_mfront(c, mfront, gdir, p), progs))
+    for p, f in zip(progs, fails):
+        if f:
+            c.report("mfront:" + p["name"], "mfront (--interface=%s) rejects a generated material property: %s" % (f[0], f[1][-500:]),
+                     {"mfront": mfront_text(p), "output": f[1][-2000:]}, True)
+            p["failed"] = True
     progs = [p for p in progs if not p.get("failed")]
-    c.log("mfront ran on %d material properties" % len(progs))
+    c.log("mfront ran on %d material properties (generic, c, c++ interfaces)" % len(progs))
+    for p in progs:
+        if p["pfile"] is not None:
+            open(os.path.join(rdir, p["name"] + "-parameters.txt"), "w").write("".join(l + "\n" for l, _ in p["pfile"]))
     drv = os.path.join(gdir, "driver.cxx")
     open(drv, "w").write(driver_text(c.dir, progs))
-    srcs = [drv] + [os.path.join(gdir, "src", p["name"] + s) for p in progs for s in ("-generic.cxx", "c.cxx")]
-    exe = c.cxx("driver", srcs, [], flags=["-I" + os.path.join(gdir, "include")])
+    srcs = [drv] + [os.path.join(gdir, p["name"], "src", p["name"] + s) for p in progs for s in ("-generic.cxx", "c.cxx", "x-cxx.cxx")]
+    exe = c.cxx("driver", srcs, [], flags=["-I" + os.path.join(gdir, p["name"], "include") for p in progs], opt="-O0")
     c.log("generated sources compiled")
     cases = []
     for pi, p in enumerate(progs):
         cases += program_cases(c, pi, p)
-    rc, out, err = c.run([exe], input="".join(case_line(cs) + "\n" for cs in cases))
+    rc, out, err = c.run([exe], input="".join(case_line(cs) + "\n" for cs in cases), cwd=rdir)
     if rc != 0:
         c.report("driver", "driver failed (rc %d): %s" % (rc, err[-400:]), {"stderr": err[-2000:]}, False)
         return
     obs = {}
     for l in out.splitlines():
         t = l.split()
-        obs[t[0]] = ((int(t[2]), int(t[3]), int(t[4]), pfloat(t[5]), int(t[6])), int(t[7]), None if t[9] == "-" else (int(t[9]), int(t[10])))
+        obs[t[0]] = parse_obs(t)
     c.log("driver ran %d cases" % len(cases))
 
-    # which variant of the two known defects does the tree exhibit?  (witness inputs; everything else is compared)
-    def nan_in(cs):
-        return any(math.isnan(a) for a in cs["args"][:len(progs[cs["prog"]]["inputs"])])
-    f11_cases, prec_cases = [], []
+    # which variants of the known defects does the tree exhibit?  (witness inputs; everything else is compared)
+    f11_cases, prec_cases, ret_cases, precx_cases = [], [], [], []
     for cs in cases:
         p = progs[cs["prog"]]
-        if nan_in(cs) or cs["id"] not in obs:
+        if cs["id"] not in obs:
             continue
-        o = obs[cs["id"]][0]
-        bad = meets(spec(p, cs), o, cs)
-        if bad and not meets(spec(p, cs, rnd=True), o, cs) :
-            prec_cases.append(cs)
+        ob = obs[cs["id"]]
+        o = ob["g"]
+        sp = spec(p, cs)
+        bad = meets(sp, o, cs)
+        if bad and not [b for b in meets(spec(p, cs, rnd=True), o, cs) if not is_ret_nan(b)]:
+            if [b for b in bad if not is_ret_nan(b)]:
+                prec_cases.append(cs)
         elif bad and all(b.startswith("errno after") for b in bad) and cs["pol"] == 2:
             f11_cases.append(cs)
-    variant = "A" if f11_cases else "F"
-    rnd = bool(prec_cases)
+        if bad and sp["status"] in (-3, -4) and o[0] == sp["status"] and any(is_ret_nan(b) for b in bad):
+            ret_cases.append(cs)
+        for which, call in (("k", False), ("x", True)):
+            if ob[which] is not None and meets_cxx(spec_cxx(p, cs, call), ob[which]) and not meets_cxx(spec_cxx(p, cs, call, rnd=True), ob[which]):
+                precx_cases.append(cs)
+                break
+    variant = "A" if f11_cases else ("F" if ret_cases else "D")
+    rnd, rnd_x = bool(prec_cases), bool(precx_cases)
     f11_ids = {cs["id"] for cs in f11_cases}
     prec_ids = {cs["id"] for cs in prec_cases}
+    ret_ids = {cs["id"] for cs in ret_cases}
+    precx_ids = {cs["id"] for cs in precx_cases}
     ml = c.ocaml_extract("c38", MODEL, EXTRACT, "model_driver.ml")
     lines = []
     for pi, p in enumerate(progs):
-        lines.append(decl_line(p, rnd))
+        lines += decl_lines(p, rnd, rnd_x)
         for cs in cases:
             if cs["prog"] == pi:
-                lines += model_lines(cs, variant)
+                lines += model_lines(p, cs, variant)
     rc, mo, me = c.run([ml], input="\n".join(lines) + "\n")
     mo = mo.split("\n")[:-1]
-    if rc != 0 or len(mo) != 2 * len(cases):
+    if rc != 0 or len(mo) != 5 * len(cases):
         c.report("model-eval", "the extracted Gallina model could not be run: " + me[-400:], {"stderr": me[-2000:]}, False)
         return
-    c.log("model evaluated (variant %s, bounds %s)" % (variant, "rounded to 6 digits as emitted" if rnd else "as declared"))
+    c.log("model evaluated (variant %s, bounds %s; c++: bounds %s)" % (variant, "rounded to 6 digits as emitted" if rnd else "as declared",
+                                                                        "rounded to 6 digits as emitted" if rnd_x else "as declared"))
     order = [cs for pi in range(len(progs)) for cs in cases if cs["prog"] == pi]
-    nanskip = 0
+    stats = dict(nan=0, nan_rejected=0, cxx=0, xcalls=0, cmain=0, cmain_errno=0, cxx_errno={}, minus6=0, nochecks=0, options=0)
     for i, cs in enumerate(order):
         p = progs[cs["prog"]]
+        n = len(p["inputs"])
         if cs["id"] not in obs:
             report(c, "noout", "noout:" + cs["id"], "no output of the driver for " + describe(p, cs), {}, 1)
             continue
-        o, msg, cb = obs[cs["id"]]
-        t = mo[2 * i].split()
+        ob = obs[cs["id"]]
+        o, cb = ob["g"], ob["cb"]
+        t = mo[5 * i].split()
         m = (int(t[0]), int(t[1]), int(t[2]), t[3], int(t[4]))
-        mcb = int(mo[2 * i + 1])
+        mcb = int(mo[5 * i + 1])
+        mcm = mo[5 * i + 2].strip()
+        tk = mo[5 * i + 3].split()
+        mk = (tk[0], int(tk[1]), int(tk[2]), None, ranks(tk[3]))
+        tx = mo[5 * i + 4].split()
+        mx = (tx[0], int(tx[1]), int(tx[2]), tx[3], ranks(tx[4]))
         kind, val, es = cs["oc"]
         sp = spec(p, cs)
         nontriv = sp["status"] != 0 or any(a in [float(b[q]) for v in p["inputs"] for b in (v["bounds"], v["phys"]) if b for q in (1, 2)] for a in cs["args"])
-        c.count(1, (p["name"], cs["pol"], cs["nargs"], cs["e0"], str(cs["oc"]), tuple(fmt(a) for a in cs["args"])), nontriv)
+        c.count(1, (p["name"], cs["pol"], cs["envpol"], cs["nargs"], cs["e0"], str(cs["oc"]), tuple(fmt(a) for a in cs["args"])), nontriv)
+        stats["minus6"] += sp["status"] == -6
+        stats["nochecks"] += p["opts"]["nochecks"]
+        stats["options"] += p["opts"] != NOOPT
         if i % 1499 == 0:
             c.sample({"program": p["name"], "inputs": [(v["bounds"], v["phys"]) for v in p["inputs"]], "output": (p["output"]["bounds"], p["output"]["phys"]),
-                      "args": [fmt(a) for a in cs["args"]], "policy": cs["pol"], "caller_errno": cs["e0"], "law_outcome": [kind, fmt(val) if kind == "R" else val, es],
-                      "observed(status,bounds_status,c_error_number,ret,errno_after)": [o[0], o[1], o[2], fmt(o[3]), o[4]], "checkBounds": cb})
-        rep = {"mfront_file": mfront_text(p), "args": [fmt(a) for a in cs["args"]], "args_decimal": cs["args"], "nargs": cs["nargs"], "policy": cs["pol"],
+                      "options": {k_: v_ for k_, v_ in p["opts"].items() if v_ != NOOPT[k_]}, "parameters_file": p["pfile"],
+                      "args": [fmt(a) for a in cs["args"]], "policy": cs["pol"], "OUT_OF_BOUNDS_POLICY": cs["envpol"], "caller_errno": cs["e0"],
+                      "law_outcome": [kind, fmt(val) if kind == "R" else val, es],
+                      "generic(status,bounds_status,c_error_number,ret,errno_after)": [o[0], o[1], o[2], fmt(o[3]), o[4]], "c_checkBounds": cb,
+                      "cxx_checkBounds(kind,rank,physical,-,warned)": ob["k"], "cxx_call(kind,rank,physical,ret,warned,errno)": str(ob["x"])})
+        rep = {"mfront_file": mfront_text(p), "parameters_file": None if p["pfile"] is None else [l for l, _ in p["pfile"]],
+               "args": [fmt(a) for a in cs["args"]], "args_decimal": cs["args"], "nargs": cs["nargs"], "policy": cs["pol"],
+               "OUT_OF_BOUNDS_POLICY(-1 unset,0 NONE,1 WARNING,2 STRICT)": cs["envpol"],
                "caller_errno": cs["e0"], "law_outcome": [kind, fmt(val) if kind == "R" else val, es],
-               "observed": {"status": o[0], "bounds_status": o[1], "c_error_number": o[2], "returned": fmt(o[3]), "errno_after": o[4], "checkBounds": cb},
-               "model": {"generic": mo[2 * i], "checkBounds": mcb}, "how": "props/C38/driver_template.cxx (case line format in its header)"}
-        if nan_in(cs):
-            nanskip += 1
-            continue
-        # (1) the documented contract
+               "observed": {"status": o[0], "bounds_status": o[1], "c_error_number": o[2], "returned": fmt(o[3]), "errno_after": o[4], "checkBounds": cb,
+                            "c_main": None if ob["cm"] is None else [fmt(ob["cm"][0]), ob["cm"][1]], "cxx_checkBounds": ob["k"], "cxx_call": str(ob["x"])},
+               "model": {"generic": mo[5 * i], "checkBounds": mcb, "c_main": mcm, "cxx_checkBounds": mo[5 * i + 3], "cxx_call": mo[5 * i + 4]},
+               "how": "props/C38/driver_template.cxx (case line format in its header); run in a directory holding the parameters file"}
+        nr = nan_ranks(p, cs)
+        ckey = "%s:%s:%d:%d:%d:%d:%s" % (p["name"], ",".join(fmt(a) for a in cs["args"]), cs["pol"], cs["envpol"], cs["nargs"], cs["e0"], cs["oc"])
+        # (1) the documented contract, generic interface
         bad = meets(sp, o, cs)
-        if bad:
+        as_inside = True
+        if nr:
+            # NaN arguments: the documentation says nothing.  Accepted: NaN treated as inside every bound (the emitted
+            # comparisons are false) or the NaN argument rejected as out of bounds (-1, +-its rank, nan, errno restored)
+            stats["nan"] += 1
+            if bad and o[0] == -1 and abs(o[1]) in nr and math.isnan(o[3]) and o[4] == cs["e0"]:
+                bad, as_inside = [], False
+                stats["nan_rejected"] += 1
+        bad_other = [b for b in bad if not (cs["id"] in ret_ids and is_ret_nan(b))]
+        if cs["id"] in ret_ids:
+            report(c, "ret", K_RET, "the computed value is returned with status %d although every negative status is documented to return nan: %s\nobserved: %s" % (
+                o[0], describe(p, cs), "; ".join(b for b in bad if is_ret_nan(b))), rep, 1)
+        if bad_other:
             if cs["id"] in prec_ids:
                 report(c, "precG", K_PREC_G, "bounds are emitted with 6 significant digits in the test (declared %s): %s\nobserved: %s" % (
-                    [(v["bounds"], v["phys"]) for v in p["inputs"] + [p["output"]]], describe(p, cs), "; ".join(bad)), rep, 1)
+                    [(v["bounds"], v["phys"]) for v in p["inputs"] + [p["output"]]], describe(p, cs), "; ".join(bad_other)), rep, 1)
             elif cs["id"] in f11_ids:
-                report(c, "f11", K_F11, "errno is not restored: %s\nobserved: %s" % (describe(p, cs), "; ".join(bad)), rep, 1)
+                report(c, "f11", K_F11, "errno is not restored: %s\nobserved: %s" % (describe(p, cs), "; ".join(bad_other)), rep, 1)
             else:
-                report(c, "contract", "generic:%s:%s:%d:%d:%d:%s" % (p["name"], ",".join(fmt(a) for a in cs["args"]), cs["pol"], cs["nargs"], cs["e0"], cs["oc"]),
-                       "documented contract violated: %s\nobserved: %s" % (describe(p, cs), "; ".join(bad)), rep)
+                report(c, "contract", "generic:" + ckey, "documented contract violated: %s\nobserved: %s" % (describe(p, cs), "; ".join(bad_other)), rep)
         # (2) C interface _checkBounds
         if cb is not None:
             scb = spec_cb(p, cs)
-            if cb[0] != scb:
+            if cb[0] != scb and nr and abs(cb[0]) in nr:
+                pass            # NaN argument rejected: accepted (see above)
+            elif cb[0] != scb:
                 if cb[0] == spec_cb(p, cs, rnd=True):
                     report(c, "precC", K_PREC_C, "C interface: bounds are emitted with 6 significant digits: %s_checkBounds(%s) = %d, documented %d\n%s" % (
                         p["name"], cs["args"], cb[0], scb, mfront_text(p)), rep, 1)
@@ -407,37 +687,94 @@ def main(c):
             elif cb[0] != mcb:
                 report(c, "cbmodel", "cmodel:%s:%s" % (p["name"], ",".join(fmt(a) for a in cs["args"])),
                        "%s_checkBounds(%s) = %d differs from the Gallina model (%d)" % (p["name"], cs["args"], cb[0], mcb), rep)
-        elif has_cb(p) and cs["nargs"] == len(p["inputs"]):
+        elif has_cb(p) and cs["nargs"] == n:
             report(c, "cbmissing", "c:nocheckbounds:" + p["name"], "no _checkBounds function called for " + p["name"], rep, 1)
-        # (3) correspondence with the Gallina model (all fields)
-        mret = m[3]
-        same_ret = (mret == key(o[3]))
-        if not bad and ((o[0], o[1], o[2], o[4]) != (m[0], m[1], m[2], m[4]) or not same_ret):
-            report(c, "model", "model:%s:%s:%d:%d:%d:%s" % (p["name"], ",".join(fmt(a) for a in cs["args"]), cs["pol"], cs["nargs"], cs["e0"], cs["oc"]),
-                   "the generated code behaves differently from the Gallina model: %s\nobserved %s, model %s" % (describe(p, cs), rep["observed"], mo[2 * i]), rep)
-        elif bad and (cs["id"] in prec_ids or cs["id"] in f11_ids) and ((o[0], o[1], o[2], o[4]) != (m[0], m[1], m[2], m[4]) or not same_ret):
+        # (3) correspondence with the Gallina model (all fields), generic interface
+        same = (o[0], o[1], o[2], o[4]) == (m[0], m[1], m[2], m[4]) and m[3] == key(o[3])
+        if not bad and as_inside and not same:
+            report(c, "model", "model:" + ckey, "the generated code behaves differently from the Gallina model: %s\nobserved %s, model %s" % (
+                describe(p, cs), rep["observed"], mo[5 * i]), rep)
+        elif bad and not bad_other and cs["id"] in ret_ids and not same:
             report(c, "model", "model-variant:%s" % cs["id"], "the model variant describing the known defect does not reproduce the observation: %s observed %s model %s" % (
-                describe(p, cs), rep["observed"], mo[2 * i]), rep)
+                describe(p, cs), rep["observed"], mo[5 * i]), rep)
+        elif bad_other and (cs["id"] in prec_ids or cs["id"] in f11_ids) and not same:
+            report(c, "model", "model-variant:%s" % cs["id"], "the model variant describing the known defect does not reproduce the observation: %s observed %s model %s" % (
+                describe(p, cs), rep["observed"], mo[5 * i]), rep)
+        # (4) c++ interface: static checkBounds and operator()
+        for which, call, mm in (("k", False, mk), ("x", True, mx)):
+            ox = ob[which]
+            if ox is None:
+                if cs["nargs"] == n and (call or has_cb(p)):
+                    report(c, "xmissing", "cxx:missing:" + p["name"], "c++ interface: %s not called for %s" % ("operator()" if call else "checkBounds", p["name"]), rep, 1)
+                continue
+            stats["cxx"] += 1
+            stats["xcalls"] += call
+            what = "operator()" if call else "checkBounds"
+            badx = meets_cxx(spec_cxx(p, cs, call), ox)
+            inside_x = True
+            if nr and badx and ox[0] == "G" and ox[1] in nr:
+                badx, inside_x = [], False
+            if badx:
+                if cs["id"] in precx_ids and not meets_cxx(spec_cxx(p, cs, call, rnd=True), ox):
+                    report(c, "precX", K_PREC_X, "c++ interface: bounds are emitted with 6 significant digits in the tests of %s (declared %s): %s\nobserved: %s" % (
+                        what, [(v["bounds"], v["phys"]) for v in p["inputs"] + [p["output"]]], describe(p, cs), "; ".join(badx)), rep, 1)
+                else:
+                    report(c, "cxx", "cxx:%s:%s" % (what, ckey), "c++ interface, %s: documented behaviour violated: %s\nobserved: %s" % (what, describe(p, cs), "; ".join(badx)), rep)
+            if inside_x and (not badx or cs["id"] in precx_ids):
+                mret_ok = True
+                if call and ox[0] == "V":
+                    mret_ok = mm[3] == key(ox[3])
+                # (the model carries the variables reported on std::cerr only when a value comes back)
+                if (ox[0], ox[1], ox[2]) != (mm[0], mm[1], mm[2]) or (ox[0] == "V" and list(ox[4]) != list(mm[4])) or not mret_ok:
+                    report(c, "xmodel", "cxxmodel:%s:%s" % (what, ckey), "c++ interface, %s behaves differently from the Gallina model: %s\nobserved %s, model %s" % (
+                        what, describe(p, cs), ox, mo[5 * i + (4 if call else 3)]), rep)
+            if call and ox[5] != cs["e0"]:
+                stats["cxx_errno"][ox[0]] = stats["cxx_errno"].get(ox[0], 0) + 1
+        # (5) C interface main function: outside the statement (observation); compared with the model of the emitted code
+        if ob["cm"] is not None:
+            stats["cmain"] += 1
+            if mcm != key(ob["cm"][0]):
+                report(c, "cmain", "cmain:" + ckey, "C interface: the main function returns %r, the Gallina model of the emitted code %s: %s" % (
+                    ob["cm"][0], mcm, describe(p, cs)), rep)
+            stats["cmain_errno"] += ob["cm"][1] != cs["e0"]
     c.log("comparison done")
-    if nanskip:
-        c.notes.append("%d cases with a NaN argument are outside the statement (comparisons are false: NaN passes every bound): not compared" % nanskip)
-    for g, n in _groups.items():
-        if n > 3:
-            c.notes.append("%d failing cases in group %s; replay files written for the first ones only" % (n, g))
-    # proofs: the theorem about errno is the positive one unless the defect is observed (then the refutation is checked)
-    props = "Properties_C38_finding.v" if variant == "A" else "Properties_C38.v"
-    c.notes.append("errno theorem file used: %s; model run with bounds %s" % (props, "rounded to 6 significant digits (as emitted today)" if rnd else "as declared"))
-    res = c.coq(["C38Model.v", "C38Spec.v", "C38Proofs.v", "Properties_C38_common.v", props], timeout=600)
+    if stats["nan"]:
+        c.notes.append("%d cases with a NaN argument: the documentation does not say what a NaN argument is; accepted: treated as inside every bound "
+                       "(what the emitted comparisons do: %d cases) or rejected as out of bounds with its rank (%d cases)" % (
+                           stats["nan"], stats["nan"] - stats["nan_rejected"], stats["nan_rejected"]))
+    c.notes.append("observation outside the statement: the C interface's main function left errno different from its value before the call in %d of %d calls "
+                   "(early returns on an output physical bound or an exception; no errno handling without inputs)" % (stats["cmain_errno"], stats["cmain"]))
+    c.notes.append("observation outside the statement: the c++ functor left errno different from its value before the call in %s of %d calls (by outcome: L = exception of "
+                   "the law, V/G/R only for properties without inputs or with runtime checks disabled)" % (dict(stats["cxx_errno"]), stats["xcalls"]))
+    c.notes.append("%d cases on declarations with DSL options, %d with status -6 documented, %d with runtime checks disabled" % (stats["options"], stats["minus6"], stats["nochecks"]))
+    for g, n_ in _groups.items():
+        if n_ > 3:
+            c.notes.append("%d failing cases in group %s; replay files written for the first ones only" % (n_, g))
+    # proofs: the theorems about errno / the value returned with a negative status are the positive ones unless the defect is
+    # observed (then the refutation is checked)
+    props = ["Properties_C38_finding.v" if variant == "A" else "Properties_C38.v",
+             "Properties_C38_ret_finding.v" if ret_cases else "Properties_C38_ret.v"]
+    c.notes.append("theorem files used: %s; model variant %s; bounds %s; c++ bounds %s" % (
+        props, variant, "rounded to 6 significant digits (as emitted today)" if rnd else "as declared",
+        "rounded to 6 significant digits (as emitted today)" if rnd_x else "as declared"))
+    res = c.coq(["C38Model.v", "C38Spec.v", "C38Proofs.v", "Properties_C38_common.v"] + props, timeout=600)
     if not res.ok:
         c.coq_failures(res)
-    c.coverage["rule"] = ("%d material properties (4 archetypes + random: 0..4 inputs, lower / upper / two-sided bounds and physical bounds on inputs and output, "
-                          "bounds with up to 10 significant digits, @UseQt for one in three) x argument vectors {each input on each bound, +-1 ulp, +-2e-6 relative, +-1/8, mid, "
-                          "+-inf, NaN; random multi-violations} x policies {NONE, WARNING, STRICT} x caller errno {0, EDOM, ERANGE, 42} x law outcome {value on/around the output "
-                          "bounds, errno left EDOM/ERANGE, +-inf, NaN, std::exception, non-std exception} x nargs {n, n-1, n+1, n+3}; C interface _checkBounds on the same vectors; "
+    c.coverage["rule"] = ("%d material properties (10 archetypes + random: 0..4 inputs, lower / upper / two-sided bounds and physical bounds on inputs and output, "
+                          "inputs without bounds before inputs with bounds, bounds with up to 10 significant digits, @UseQt for one in three; DSL options: parameters "
+                          "with a parameters file (valid / unknown name / bad number / wrong token count), parameters_as_static_variables, "
+                          "parameters_initialization_from_file, disable_runtime_checks, default_out_of_bounds_policy, out_of_bounds_policy_runtime_modification) x "
+                          "argument vectors {each input on each bound, +-1 ulp, +-2e-6 relative, +-1/8, mid, +-inf, NaN; random multi-violations} x policies "
+                          "{NONE, WARNING, STRICT} (c++: OUT_OF_BOUNDS_POLICY unset / NONE / WARNING / STRICT) x caller errno {0, EDOM, ERANGE, 42} x law outcome "
+                          "{value on/around the output bounds, errno left EDOM/ERANGE, +-inf, NaN, std::exception, non-std exception} x nargs {n, n-1, n+1, n+3}; "
+                          "generic interface, C interface _checkBounds and main function, c++ interface checkBounds and operator() on the same vectors; "
                           "non-trivial = status != 0 documented or an argument exactly on a bound" % len(progs))
     c.coverage["programs"] = len(progs)
-    c.trusted("props/C38/driver_template.cxx + generated registry (calls the emitted functions, reads errno right after the call)",
-              "Python printers: declaration -> .mfront text and -> protocol lines of the extracted model; doubles -> order-preserving integer keys",
+    c.coverage["cxx_calls"] = stats["cxx"]
+    c.trusted("props/C38/driver_template.cxx + generated registry (calls the emitted functions, reads errno right after the call, captures std::cerr, reads "
+              "the variable named in the what() of std::range_error)",
+              "Python printers: declaration -> .mfront text and -> protocol lines of the extracted model; doubles -> order-preserving integer keys; "
+              "lines of the parameters file -> class (blank / comment / name-number / other)",
               "the law outcome is injected through globals read by the generated @Function body (value, errno, exception)",
               "execution of the extracted model through props/C38/model_driver.ml (parsing/printing only)")
 
